@@ -281,6 +281,11 @@ async def _run_script(ctx, inv, ev, script):
                 e = inv.dispatch(ctx.buses[bus], _mk_event(ctx, 'R', lab, n=ev.n + 1))
                 if mode == 'await':
                     await inv.wait(e)
+        elif op == 'sleep_steps':
+            # wait k event-loop iterations without any time passing (k usually a solver-chosen integer): explores the orderings
+            # of things that happen at the same virtual instant
+            for _ in range(int(_val(ctx, st[1]))):
+                await asyncio.sleep(0)
         elif op == 'burst':
             _, bus, cls, nvar, prefix = st
             nn = _val(ctx, nvar)
